@@ -27,6 +27,10 @@ type c05Case struct {
 	// Prev: the same Policy value compiled this (different) policy before and was then overwritten field by field
 	// (callers reuse and modify policy values); the program returned now must be the one of Policy.
 	Prev *spec.Policy `json:"prev,omitempty"`
+	// ThenEdited: after the program under test was returned, the same Policy value - and a copy of it - get other actions
+	// everywhere (values the policy does not use) and are compiled again; the caller still holds the first program, and
+	// that is the one examined
+	ThenEdited bool `json:"then_edited,omitempty"`
 }
 
 // tuneLength grows or shrinks the policy until the compiled program has a
@@ -163,6 +167,7 @@ func drawC05(t *rapid.T) c05Case {
 		prev := gen.Policy(t, p.Arch, gen.Opts{Profile: gen.Small})
 		c.Prev = &prev
 	}
+	c.ThenEdited = rapid.IntRange(0, 4).Draw(t, "thenEdited") == 0
 	every := ev.Scale(12, 6)
 	c.Kernel = rapid.IntRange(0, every-1).Draw(t, "kernel") == 0 || k <= 2
 	return c
@@ -196,18 +201,45 @@ func checkC05(raw json.RawMessage) (ev.Result, error) {
 	var cp *compiled
 	var cerr error
 	var pan any
-	if c.Prev != nil && c.Prev.Arch == p.Arch {
-		res.Classes = append(res.Classes, "value-reused-after-compiling-another-policy")
+	if (c.Prev != nil && c.Prev.Arch == p.Arch) || c.ThenEdited {
 		func() {
 			defer func() { pan = recover() }()
-			sp := c.Prev.ToSeccomp()
-			sp.Assemble()
-			np := p.ToSeccomp()
-			sp.DefaultAction, sp.Syscalls = np.DefaultAction, np.Syscalls
+			sp := p.ToSeccomp()
+			if c.Prev != nil && c.Prev.Arch == p.Arch {
+				res.Classes = append(res.Classes, "value-reused-after-compiling-another-policy")
+				sp = c.Prev.ToSeccomp()
+				sp.Assemble()
+				np := p.ToSeccomp()
+				sp.DefaultAction, sp.Syscalls = np.DefaultAction, np.Syscalls
+			}
 			insts, err := sp.Assemble()
 			cerr = err
 			if err == nil {
 				cp = &compiled{insts: insts}
+			}
+			if err == nil && c.ThenEdited {
+				res.Classes = append(res.Classes, "value-edited-and-compiled-again-while-the-program-is-held")
+				used := map[uint32]bool{uint32(sp.DefaultAction): true}
+				for _, g := range sp.Syscalls {
+					used[uint32(g.Action)] = true
+				}
+				var unused []uint32
+				for _, a := range oracle.ActionList() {
+					if !used[a] {
+						unused = append(unused, a)
+					}
+				}
+				unused = append(unused, oracle.Const("SECCOMP_RET_ERRNO")|0x77, oracle.Const("SECCOMP_RET_TRACE")|0x1234)
+				cp2 := *sp
+				for k, v := range []*seccomp.Policy{sp, &cp2} {
+					v.DefaultAction = seccomp.Action(unused[k%len(unused)])
+					groups := append([]seccomp.SyscallGroup(nil), v.Syscalls...)
+					for gi := range groups {
+						groups[gi].Action = seccomp.Action(unused[(k+gi+1)%len(unused)])
+					}
+					v.Syscalls = groups
+					v.Assemble()
+				}
 			}
 		}()
 	} else {
